@@ -877,32 +877,23 @@ theorem C06_delivered_first_external (g : SG) (prevSub curSub fw : List Nat) (c 
   simp only [delivered, hint, hext]
 
 /-- when the model reports no fault for a stage, every forward node of the stage receives exactly its predecessors in
-    operand order and every node trained in it gets its data -/
-theorem C06_no_fault_sound (g : SG) (prevSub curSub : List Nat) (nextSub : Option (List Nat)) (tr fw : List Nat)
-    (h : stageFaults g prevSub curSub nextSub tr fw = []) :
-    (∀ c ∈ fw, delivered g prevSub curSub fw c = some (g.parents c))
-    ∧ (∀ v ∈ tr, ∀ nx, nextSub = some nx → v ∈ nx) := by
-  simp only [stageFaults, List.append_eq_nil_iff, List.filterMap_eq_nil_iff] at h
-  refine ⟨?_, ?_⟩
-  · intro c hc
-    have := h.1 c hc
-    cases hd : delivered g prevSub curSub fw c with
-    | none => simp [hd] at this
-    | some l =>
-      simp only [hd] at this
-      by_cases hl : l = g.parents c
-      · rw [hl]
-      · simp only [hl, if_false] at this
-        split at this <;> simp at this
-  · intro v hv nx hnx
-    have := h.2 v hv
-    simp only [hnx] at this
-    by_cases hm : nx.contains v = true
-    · simpa using hm
-    · simp [hm] at this
-      exact this
+    operand order -/
+theorem C06_no_fault_sound (g : SG) (prevSub curSub : List Nat) (fw : List Nat)
+    (h : stageFaults g prevSub curSub fw = []) :
+    ∀ c ∈ fw, delivered g prevSub curSub fw c = some (g.parents c) := by
+  simp only [stageFaults, List.filterMap_eq_nil_iff] at h
+  intro c hc
+  have := h c hc
+  cases hd : delivered g prevSub curSub fw c with
+  | none => simp [hd] at this
+  | some l =>
+    simp only [hd] at this
+    by_cases hl : l = g.parents c
+    · rw [hl]
+    · simp only [hl, if_false] at this
+      split at this <;> simp at this
 
-/-! the four recorded findings, as the model sees them (graphs WITH their concatenation nodes; `parents` in operand
+/-! the recorded findings (K23 repaired since: fix D39), as the model sees them (graphs WITH their concatenation nodes; `parents` in operand
     order = sorted by name, the input sorting first) -/
 
 /-- K20: `(inp >> r1 >> o1 >> r2 >> o2) & (inp >> o2)`; 0 inp, 1 r1, 2 o1, 3 r2, 4 Concat(inp, r2), 5 o2 -/
@@ -921,10 +912,12 @@ example : routeFaults gK21 [0, 1, 2, 3, 4, 5, 7, 8] = [.missing 7] := by decide
 def gK22 : SG := ⟨fun v => [[], [0], [1], [0, 1, 2], [3]].getD v [], fun v => v == 4, fun v => v == 2 || v == 4⟩
 example : routeFaults gK22 [0, 1, 2, 3, 4] = [.overwrite 3] := by decide
 
-/-- K23: `inp >> r1 >> oA` next to `inp >> r2 >> oB >> oC`; 2 = oA (exit, trained in stage 1 of 2) -/
+/-- K23 (repaired by D39): `inp >> r1 >> oA` next to `inp >> r2 >> oB >> oC`; 2 = oA (exit, trained in stage 1 of 2): no fault any more -/
 def gK23 : SG := ⟨fun v => [[], [0], [1], [0], [3], [4]].getD v [], fun v => v == 2 || v == 5,
                   fun v => v == 2 || v == 4 || v == 5⟩
-example : routeFaults gK23 [0, 1, 2, 3, 4, 5] = [.noTrainData 2] := by decide
+example : routeFaults gK23 [0, 1, 2, 3, 4, 5] = [] := by decide
+/-- … because the relations of its first stage now name the early exit readout as a consumer (2 = oA, fed by 1 = r1) -/
+example : (required gK23 [0, 1, 2, 3, 4, 5]).head? = some [(1, [2]), (3, [4])] := by decide
 
 /-- a deep chain without shortcuts has no fault -/
 example : routeFaults demoG [0, 1, 2, 3] = [] := by decide
@@ -993,3 +986,38 @@ theorem C06_permuted_fit {T d k : Nat} (lam : R) (hlam : 0 < lam) (X : Matrix (F
   rw [hW, transpose_mul, transpose_transpose, Matrix.mul_assoc]
 
 end PermutedFit
+
+/-- what the fault `overwrite` means (finding K22): a forward node with two or more operands forwarded from the
+    previous stage -/
+theorem C06_overwrite_iff (g : SG) (prevSub curSub : List Nat) (fw : List Nat) (c : Nat) :
+    RouteFault.overwrite c ∈ stageFaults g prevSub curSub fw ↔
+      c ∈ fw ∧ 2 ≤ ((g.parents c).filter (fun p => prevSub.contains p && !curSub.contains p)).length := by
+  simp only [stageFaults, List.mem_filterMap]
+  constructor
+  · rintro ⟨d, hd, h⟩
+    · cases hdel : delivered g prevSub curSub fw d with
+      | none =>
+        simp only [hdel, Option.some.injEq, RouteFault.overwrite.injEq] at h
+        subst h
+        refine ⟨hd, ?_⟩
+        unfold delivered at hdel
+        generalize (g.parents d).filter (fun p => prevSub.contains p && !curSub.contains p) = ext at hdel ⊢
+        match ext, hdel with
+        | [], h' => simp at h'
+        | [_], h' => simp at h'
+        | _ :: _ :: _, _ => simp
+      | some l =>
+        simp only [hdel] at h
+        split at h
+        · simp at h
+        · split at h <;> simp at h
+  · rintro ⟨hc, hlen⟩
+    refine ⟨c, hc, ?_⟩
+    have : delivered g prevSub curSub fw c = none := by
+      unfold delivered
+      generalize (g.parents c).filter (fun p => prevSub.contains p && !curSub.contains p) = ext at hlen ⊢
+      match ext, hlen with
+      | [], h' => simp at h'
+      | [_], h' => simp at h'
+      | _ :: _ :: _, _ => rfl
+    simp [this]
